@@ -1,7 +1,7 @@
 (* Properties_C06: statements only.  C06 -- PUSH/PULL: each message to at most
    one puller, none lost while connected; back-pressure. *)
 From Coq Require Import List Arith NArith Bool.
-From NngV Require Import Gen.Consts Proto.Common Proto.PushModel Proto.PushGuard Proto.PullModel Proto.PushProofs Proto.PullProofs Proto.PipelineProofs.
+From NngV Require Import Gen.Consts Proto.Common Proto.PushModel Proto.PushGuard Proto.PullModel Proto.PushProofs Proto.PullProofs Proto.PipelineProofs Proto.PushSubmit.
 Import ListNotations.
 
 (* one step of the pusher (= one critical section of push.c), under the
@@ -23,8 +23,9 @@ Proof. exact push_run_law. Qed.
 Print Assumptions push_conservation.
 
 (* messages are handed to the transports in exactly the order they were
-   accepted (hence in send order on every connection), for every step that is
-   not a buffer resize *)
+   ACCEPTED into the buffer, for every step that is not a buffer resize.  (Kept from round 1; it says
+   nothing about the order among blocked senders -- the property's "send order" is the submission-order
+   law further down.) *)
 Theorem push_per_pipe_fifo : forall s o s' outs,
   PInv s -> op_ok s o -> (forall c op, o <> PSetOpt c op) ->
   push_step s o = (s', outs) ->
@@ -95,27 +96,150 @@ Theorem pushpull_init_invariants : (PInv push_init /\ WInv push_init) /\ LInvP p
 Proof. split; [exact push_init_inv|exact pull_init_inv]. Qed.
 Print Assumptions pushpull_init_invariants.
 
-(* push.c as it is now (fix 8475361): the model run against the code is PushGuard.push0_step =
-   push_step with the closed-pipe guard; outside the successful send completion of a closed pipe
-   it IS push_step, so every theorem above is about the code as it is *)
-Theorem push_guard_is_push_step : forall fc g o, stale_done g o = false ->
-  pg_s (fst (push_step_g fc g o)) = fst (push_step (pg_s g) o) /\ snd (push_step_g fc g o) = snd (push_step (pg_s g) o).
-Proof. intros fc g o H. exact (proj2 (PushGuard_contract fc g o H)). Qed.
+(* push.c as it is now: the model run against the code is PushGuard.push0_step = push_step_g fc fr, i.e.
+   push_step with the closed-pipe guard (fc, fix 8475361) and the text of push0_set_send_buf_len the source has
+   (fr: blocked senders move into a resized buffer -- the repair of finding push-resize-overtakes-blocked).
+   Outside the successful send completion of a closed pipe it is push_step_r fr; push_step_r fr is push_step on
+   everything but NNG_OPT_SENDBUF, and with fr = false on that too -- so every theorem above is about the code
+   as it is, and push_repaired_resize_keeps_laws carries conservation and the descriptor mirror over to fr = true *)
+Theorem push_guard_is_push_step : forall fc fr g o, stale_done g o = false -> (fr = false \/ is_resize o = false) ->
+  pg_s (fst (push_step_g fc fr g o)) = fst (push_step (pg_s g) o) /\ snd (push_step_g fc fr g o) = snd (push_step (pg_s g) o).
+Proof. intros fc fr g o H R. exact (proj2 (PushGuard_contract fc fr g o H R)). Qed.
 Print Assumptions push_guard_is_push_step.
+Theorem push_guard_is_push_step_r : forall fc fr g o, stale_done g o = false ->
+  pg_s (fst (push_step_g fc fr g o)) = fst (push_step_r fr (pg_s g) o) /\ snd (push_step_g fc fr g o) = snd (push_step_r fr (pg_s g) o).
+Proof. exact PushGuard_contract_r. Qed.
+Print Assumptions push_guard_is_push_step_r.
+Theorem push_repaired_resize_keeps_laws : forall fr s o s' outs,
+  PInv s -> op_ok s o -> push_step_r fr s o = (s', outs) ->
+  (PInv s' /\ forall x, cnt x (owned s ++ accepted s o outs ++ arrived o) = cnt x (owned s' ++ wire s o ++ freed outs)) /\
+  (WInv s -> WInv s').
+Proof. intros fr s o s' outs HI Hok H. split; [exact (push_step_r_law fr s o s' outs HI Hok H)|intros W; exact (push_r_writable_mirror fr s o s' outs HI W H)]. Qed.
+Print Assumptions push_repaired_resize_keeps_laws.
 (* a pipe whose pipe_close has run is never on the ready list again (so no message is handed to
    a pipe that is being destroyed), over every history in which pipe ids are not reused *)
-Theorem push_closed_pipe_never_ready : forall ops g, CInv g -> fresh_all true g ops -> CInv (push_run_g true g ops).
+Theorem push_closed_pipe_never_ready : forall fr ops g, CInv g -> fresh_all true fr g ops -> CInv (push_run_g true fr g ops).
 Proof. exact push_closed_never_ready. Qed.
 Print Assumptions push_closed_pipe_never_ready.
-Theorem push_closed_pipe_ready_pinned_refuted :
-  let g := push_run_g false pushg_init push_stale_witness in
-  fresh_all false pushg_init push_stale_witness /\ In 1%N (pg_closed g) /\ In 1%N (ps_pl (pg_s g)) /\
-  exists g' rest, push_step_g false g (PSend None 2%N true (mkPmsg [] [2%N])) = (g', Complete 2%N E_OK None :: TranSend 1%N (mkPmsg [] [2%N]) :: rest).
+Theorem push_closed_pipe_ready_pinned_refuted : forall fr,
+  let g := push_run_g false fr pushg_init push_stale_witness in
+  fresh_all false fr pushg_init push_stale_witness /\ In 1%N (pg_closed g) /\ In 1%N (ps_pl (pg_s g)) /\
+  exists g' rest, push_step_g false fr g (PSend None 2%N true (mkPmsg [] [2%N])) = (g', Complete 2%N E_OK None :: TranSend 1%N (mkPmsg [] [2%N]) :: rest).
 Proof. exact push_closed_pipe_ready_refuted. Qed.
 Print Assumptions push_closed_pipe_ready_pinned_refuted.
-Theorem push_current_source_guarded : C06_PUSH_CLOSED_GUARD_FIXED = true /\ push0_step = push_step_g true.
+Theorem push_current_source_guarded :
+  C06_PUSH_CLOSED_GUARD_FIXED = true /\ push0_step = push_step_g true C06_PUSH_RESIZE_ADMITS_FIXED.
 Proof. split; reflexivity. Qed.
 Print Assumptions push_current_source_guarded.
+
+(* ---------------- send order is SUBMISSION order ----------------
+   pend s = send buffer ++ blocked senders (queue order); entered o outs = the message of a send that was not
+   refused on the spot.  One step of the guarded model (any fc; fr = true, or any step that is not a
+   NNG_OPT_SENDBUF call), from a state with QInv (a blocked sender => the buffer is full), under the contract
+   op_ok: QInv is kept;  pend s ++ entered = handed to the transports ++ pend s'  exactly, unless the step removes
+   submitted messages on purpose (sub_loss: the message of a cancelled / timed-out blocked send -- exactly that
+   one --, the excess of a buffer shrink, the waiters at socket close); then the right side is an in-order
+   sub-sequence of the left and the multisets differ by exactly sub_loss.
+   (A buffer shrink drops the newest excess messages: nni_lmq_resize, documented and expected by push_test --
+   outside the property, stated as sub_loss / freed, never silently.) *)
+Theorem push_submission_order_step : forall fc fr g o g' outs,
+  PInv (pg_s g) -> QInv (pg_s g) -> op_ok (pg_s g) o -> (fr = true \/ is_resize o = false) ->
+  push_step_g fc fr g o = (g', outs) ->
+  (QInv (pg_s g') /\
+   (sub_loss (pg_s g) o = [] -> pend (pg_s g) ++ entered o outs = txs outs ++ pend (pg_s g')) /\
+   sublist (txs outs ++ pend (pg_s g')) (pend (pg_s g) ++ entered o outs) /\
+   (forall x, cnt x (pend (pg_s g) ++ entered o outs) = cnt x (txs outs ++ pend (pg_s g') ++ sub_loss (pg_s g) o))) /\
+  PInv (pg_s g').
+Proof. exact push_submission_step_g. Qed.
+Print Assumptions push_submission_order_step.
+
+(* every history: what reached the transports (all connections together, in hand-over order), then the buffer,
+   then the blocked senders, is an in-order sub-sequence of the sends in the order they were submitted; with
+   nothing removed on purpose the transmitted sequence is a PREFIX of the submitted one *)
+Theorem push_submission_order : forall fc fr ops g,
+  (fr = true \/ no_resize ops) -> PInv (pg_s g) -> QInv (pg_s g) -> ops_ok_g fc fr g ops ->
+  let (g', tr) := push_run_gt fc fr g ops in
+  PInv (pg_s g') /\ QInv (pg_s g') /\
+  sublist (tr_tx tr ++ pend (pg_s g')) (pend (pg_s g) ++ tr_entered tr) /\
+  (tr_subloss tr = [] -> tr_tx tr ++ pend (pg_s g') = pend (pg_s g) ++ tr_entered tr) /\
+  (forall x, cnt x (pend (pg_s g) ++ tr_entered tr) = cnt x (tr_tx tr ++ pend (pg_s g') ++ tr_subloss tr)).
+Proof. exact push_submission_order_law. Qed.
+Print Assumptions push_submission_order.
+
+(* the property's clause: what ONE connection carries is an in-order sub-sequence of the application's sends in
+   submission order *)
+Theorem push_per_connection_send_order : forall fc fr ops p g,
+  (fr = true \/ no_resize ops) -> PInv (pg_s g) -> QInv (pg_s g) -> ops_ok_g fc fr g ops ->
+  sublist (tr_tx_on p (snd (push_run_gt fc fr g ops))) (pend (pg_s g) ++ tr_entered (snd (push_run_gt fc fr g ops))).
+Proof. exact push_per_pipe_submission_order. Qed.
+Print Assumptions push_per_connection_send_order.
+
+(* a cancelled / timed-out blocked send leaves with exactly its own message *)
+Theorem push_cancel_removes_exactly_that_message : forall s a rv m,
+  PInv s -> In (a, m) (ps_aq s) -> rv <> 0%N ->
+  exists s', push_step s (PCancel a rv) = (s', [Complete a rv None]) /\
+    ps_wq s' = ps_wq s /\ ps_aq s' = remove_aio a (ps_aq s) /\ sub_loss s (PCancel a rv) = [m] /\
+    sublist (pend s') (pend s) /\ forall x, cnt x (pend s) = cnt x (pend s') + cnt x [m].
+Proof. exact push_cancel_removes_only_that. Qed.
+Print Assumptions push_cancel_removes_exactly_that_message.
+
+(* the pinned push0_set_send_buf_len (fr = false): the law is FALSE once the buffer grows under blocked senders --
+   sends 1 2 3 on one connection arrive as 3 1 2 (finding push-resize-overtakes-blocked; replayed on the
+   implementation by checks/c06.py) -- and right after the resize senders are blocked although there is room *)
+Theorem push_submission_order_pinned_resize_refuted : forall fc,
+  ops_ok_g fc false pushg_init resize_witness /\
+  let (g, tr) := push_run_gt fc false pushg_init resize_witness in
+  tr_entered tr = [m_ 1; m_ 2; m_ 3] /\ tr_tx tr = [m_ 3; m_ 1; m_ 2] /\ tr_tx_on 1%N tr = tr_tx tr /\
+  tr_subloss tr = [] /\ pend (pg_s g) = [] /\
+  ~ sublist (tr_tx_on 1%N tr) (pend push_init ++ tr_entered tr).
+Proof. exact push_submission_order_refuted_pinned. Qed.
+Print Assumptions push_submission_order_pinned_resize_refuted.
+Theorem push_blocked_sender_with_room_pinned_refuted : forall fc,
+  let s := pg_s (fst (push_run_gt fc false pushg_init (firstn 3 resize_witness))) in
+  ps_aq s <> [] /\ wq_full s = false /\ ps_writable s = true.
+Proof. exact push_blocked_sender_not_full_refuted_pinned. Qed.
+Print Assumptions push_blocked_sender_with_room_pinned_refuted.
+Theorem push_submission_order_repaired_on_witness : forall fc,
+  ops_ok_g fc true pushg_init resize_witness /\
+  let (g, tr) := push_run_gt fc true pushg_init resize_witness in
+  tr_tx tr = [m_ 1; m_ 2; m_ 3] /\ tr_entered tr = tr_tx tr /\ tr_subloss tr = [].
+Proof. exact push_submission_order_on_resize_witness. Qed.
+Print Assumptions push_submission_order_repaired_on_witness.
+
+(* a pipe the protocol refuses at start (the peer is not a PULL socket) takes nothing: no receive armed, no
+   message handed over, no completion, state untouched -- a message is never lost to a connection that was
+   never valid *)
+Theorem push_rejected_pipe_takes_nothing : forall fc fr g p peer,
+  peer <> PROTO_PULL -> push_step_g fc fr g (PPipeStart p peer) = (g, [Reject E_PROTO]).
+Proof. exact PushSubmit.push_rejected_pipe_takes_nothing. Qed.
+Print Assumptions push_rejected_pipe_takes_nothing.
+(* the numbers and the shape of push.c these statements rest on, read from the source on every run *)
+Theorem push_source_shape :
+  PROTO_PULL = C06_PUSH_PEER /\ PROTO_PUSH = C06_PUSH_SELF /\ C06_PUSH_BUF_MAX = 8192%N /\
+  C06_PUSH_START_CHECKS_PEER_FIRST = true /\ C06_PUSH_WAITERS_FIFO = true.
+Proof. exact push_consts_match. Qed.
+Print Assumptions push_source_shape.
+
+(* non-vacuity of the order laws: four senders blocked at once (SENDBUF 1) drained by one puller; a cancel in the
+   middle of the queue; buffered + blocked messages surviving two wrong-protocol peers *)
+Example push_submission_order_nonvacuous : forall fc fr,
+  ops_ok_g fc fr pushg_init blocked_witness /\
+  let (g, tr) := push_run_gt fc fr pushg_init blocked_witness in
+  tr_entered tr = [m_ 1; m_ 2; m_ 3; m_ 4] /\ tr_tx tr = [m_ 1; m_ 2; m_ 3; m_ 4] /\ tr_tx_on 1%N tr = tr_tx tr /\
+  tr_subloss tr = [] /\ pend (pg_s g) = [].
+Proof. exact push_submission_order_on_blocked_witness. Qed.
+Example push_cancel_nonvacuous : forall fc fr,
+  ops_ok_g fc fr pushg_init cancel_witness /\
+  let (g, tr) := push_run_gt fc fr pushg_init cancel_witness in
+  tr_entered tr = [m_ 1; m_ 2; m_ 3; m_ 4] /\ tr_tx tr = [m_ 1; m_ 2; m_ 4] /\ tr_subloss tr = [m_ 3] /\ pend (pg_s g) = [].
+Proof. exact push_submission_order_on_cancel_witness. Qed.
+Example push_rejected_pipe_nonvacuous : forall fc fr,
+  ops_ok_g fc fr pushg_init reject_witness /\
+  let (g, tr) := push_run_gt fc fr pushg_init reject_witness in
+  tr_tx_on 1%N tr = [] /\ tr_tx_on 2%N tr = [] /\ tr_tx_on 3%N tr = [m_ 1; m_ 2; m_ 3] /\ tr_entered tr = [m_ 1; m_ 2; m_ 3].
+Proof. exact push_rejected_pipe_witness. Qed.
+Example push_qinv_init : PInv (pg_s pushg_init) /\ QInv (pg_s pushg_init).
+Proof. split; [exact (proj1 push_init_inv)|exact push_init_qinv]. Qed.
 
 (* non-vacuity: a concrete well-formed history moves a message end to end *)
 Example push_history_nonvacuous :
